@@ -111,7 +111,9 @@ class Tmatrix(ScatteringTheory):
         else:
             raise TheoryNotCompatibleError(self, scatterer)
 
-        axi = (3/2)**iscyl*(rz*rxy**2)**(1/3.)
+        # radius of the sphere of equal volume (a cylinder holds 3/2 of the
+        # volume of the spheroid with the same radius and half length)
+        axi = ((3/2)**iscyl*rz*rxy**2)**(1/3.)
         rat = 1
         lam = med_wavelen
         mrr = scatterer.n.real/medium_index
